@@ -126,6 +126,10 @@ func suiteTransport(t *testing.T, cfg cfgT) {
 			if ladderQ != nil && i < len(ladderDepths) {
 				q, depth = ladderQ, ladderDepths[i]
 			}
+			if ee.costly(q, depth) { // see costBudget
+				out.stat("costly")
+				continue
+			}
 			E := ee.engineObs(q, depth)
 			var obs []string
 			dq := fmt.Sprintf("max-depth=%d", depth)
@@ -177,7 +181,11 @@ func suiteTransport(t *testing.T, cfg cfgT) {
 				if i > 0 && hr.chance(1, 5) {
 					qs = append(qs, qs[hr.intn(len(qs))])
 				} else {
-					qs = append(qs, mkq())
+					q := mkq()
+					for try := 0; try < 4 && ee.costly(q, depth); try++ {
+						q = mkq()
+					}
+					qs = append(qs, q)
 				}
 			}
 			// look-alikes: a subject id that is spelled like a subject set of the same batch (and the other way round)
